@@ -144,6 +144,20 @@ func renderLines(lines []smLine, eol string, final bool) []byte {
 }
 
 func scoreToken(r *rand.Rand) string {
+	if r.Intn(12) == 0 { // integers of 17 to 30 digits: around what 53 and 63 / 64 bits can hold
+		fixed := []string{"9223372036854775807", "9223372036854775808", "-9223372036854775808", "-9223372036854775809", "18446744073709551615",
+			"18446744073709551616", "9999999999999999999", "99999999999999999999", "9007199254740993", "-9007199254740993",
+			"123456789012345678901234567890", "10000000000000000000", "+9300000000000000000"}
+		if r.Intn(3) > 0 {
+			return fixed[r.Intn(len(fixed))]
+		}
+		d := make([]byte, 17+r.Intn(5))
+		for i := range d {
+			d[i] = byte('0' + r.Intn(10))
+		}
+		d[0] = byte('1' + r.Intn(9))
+		return []string{"", "-", ""}[r.Intn(3)] + string(d)
+	}
 	switch r.Intn(10) {
 	case 0, 1, 2, 3:
 		return strconv.Itoa(r.Intn(31) - 15)
@@ -853,6 +867,19 @@ func matrixDrive(args []string) error {
 				m[[2]byte{byte(r.Intn(256)), byte(r.Intn(256))}] = wide[r.Intn(len(wide))]
 			}
 			emit(goStringEvent(sid, 0, "keys over the whole byte range", m))
+			// complete rows and columns: one symbol against every byte value (a wildcard), and the other way round
+			m = randomMatrix(wide)
+			x, y := byte(r.Intn(256)), byte(r.Intn(256))
+			for b := 0; b < 256; b++ {
+				m[[2]byte{x, byte(b)}] = wide[r.Intn(len(wide))]
+				if sid%8 == 2 {
+					m[[2]byte{byte(b), y}] = wide[r.Intn(len(wide))]
+				}
+			}
+			emit(goStringEvent(sid, 0, "a complete row", m))
+			if sid == 6 { // complete over all bytes
+				emit(goStringEvent(sid, 0, "Levenshtein", align.Levenshtein))
+			}
 		case 3: // the flow of align/genncbi on a small table
 			letters := []string{"A", "R", "N", "D", "*", "x", "'", "\\"}
 			n := 1 + r.Intn(len(letters))
